@@ -390,18 +390,15 @@ func (d *dec) experimenter(xid uint64, body []byte, bb int) *Node {
 		il := int(be16(p[8+2:]))
 		rest := p[8+il:]
 		if len(rest) > 0 {
-			// Properties follow the embedded message. EXT-230 pads the message to 8 bytes
-			// first; a sender that does not is tolerated here (see DESIGN 4.1: where my
-			// reading of the normative text is uncertain the walker is lenient).
+			// Properties follow the embedded message. ONF EXT-230 (= OF1.4 ofp_bundle_add_msg): "If there is
+			// one property or more, 'message' is followed by exactly (message.length + 7)/8*8 -
+			// (message.length) bytes of all-zero bytes".
 			padded := (il+7)/8*8 - il
-			props, err := d.tryProps(rest, pb+8+il)
-			if err != nil && padded > 0 && len(rest) >= padded {
-				d.zero(rest[:padded], "bundle-add message pad")
-				props, err = d.tryProps(rest[padded:], pb+8+il+padded)
+			if len(rest) < padded {
+				d.fail("len-mismatch", "bundle-add: %d bytes follow the %d-byte message, its padding alone is %d", len(rest), il, padded)
 			}
-			if err != nil {
-				panic(decPanic{err})
-			}
+			d.zero(rest[:padded], "bundle-add message pad")
+			props := d.bundleProps(rest[padded:], pb+8+il+padded)
 			n.Add(props...)
 		}
 		return n
@@ -442,12 +439,12 @@ func (d *dec) bundleProps(b []byte, base int) []*Node {
 			d.fail("len-mismatch", "bundle property length %d, %d bytes remain", pl, len(b)-off)
 		}
 		out = append(out, N("bundle_prop.experimenter", U("experimenter", be32(b[off+4:])), U("exp_type", be32(b[off+8:])), B("data", b[off+12:off+pl])))
-		// the 8-byte padding after a property is accepted when present and zero, not demanded
-		adv := pl
-		padded := (pl + 7) / 8 * 8
-		if padded != pl && off+padded <= len(b) && allZero(b[off+pl:off+padded]) {
-			adv = padded
+		// ofp_bundle_prop_experimenter: the data is followed by exactly (length + 7)/8*8 - length zero bytes
+		adv := (pl + 7) / 8 * 8
+		if off+adv > len(b) {
+			d.fail("unaligned", "bundle property of length %d is not padded to 8 bytes (%d bytes remain)", pl, len(b)-off)
 		}
+		d.zero(b[off+pl:off+adv], "bundle property pad")
 		off += adv
 		d.pop()
 	}
